@@ -128,6 +128,34 @@ CHECKS = {
             rapid("random", "TestC08Random", {"checks": 20000, "shards": 4}, {"checks": 250000, "shards": 16, "timeout": 6000}),
         ],
     },
+    "C09": {
+        "technique": "rapid random generation of list-mode diffs with hostile keys, translation validated against an independent RFC 6902 evaluator (differential + metamorphic on targets)",
+        "level_text": "Every generated list-mode diff is rendered as JSON Patch; the text must be a well-formed RFC 6902 document, an evaluator written "
+                      "from the RFC (pointers per RFC 6901) must turn a into b with it, and on perturbed targets where the native diff applies the JSON Patch "
+                      "must apply with the same result; diffs with number-like keys or the key \"-\" must be refused. Exploration over sampled diffs and targets.",
+        "level_note": "Trusts ref/rfc.go. Keys of 19 or more digits are a grey zone (whether they look like a number depends on the integer width): either outcome is accepted "
+                      "and a rendered patch is still checked for meaning.",
+        "rule": "(a, b) list-mode pairs, 50% with the nasty key pool (\"\", a/b, m~n, unicode, 1, 01, -, +1, ...), 1-5 edits, occasionally a void side; target c as in C03. "
+                "Non-trivial: the patch has a context test, or >= 2 adds at one pointer, or an escaped token; distinct by (a, b, c).",
+        "assumptions": ["RFC 6902 'remove' of the whole document leaves the empty (void) document"],
+        "legs": [
+            rapid("random", "TestC09Random", {"checks": 25000, "shards": 4}, {"checks": 250000, "shards": 16, "timeout": 6000}),
+        ],
+    },
+    "C10": {
+        "technique": "rapid random generation of JSON Patch documents as subset-preserving variations of jd's own output, one-directional differential oracle against an independent RFC 6902 evaluator",
+        "level_text": "jd's JSON Patch rendering of generated diffs is varied inside the supported subset (pair values, consistently shifted indices, dropped hunks, "
+                      "dropped or changed context tests, '-' append) and applied to perturbed targets; whenever jd reads and applies a patch, the RFC 6902 evaluator "
+                      "must apply it with the same result (jd may be stricter). Unvaried output must read back and reproduce b. Exploration over sampled patches and targets.",
+        "level_note": "One-directional by the statement: rejections by jd are never violations. Trusts ref/rfc.go. A recovered panic counts as a rejection (reported under C13).",
+        "rule": "p = RenderPatch(a.Diff(b)) for list-mode pairs (40% repetitive arrays over 1-2 symbols so that shifted hunks still match), unvaried 30%, otherwise 1-2 variations; "
+                "varied values are drawn half of the time from what the target holds at that pointer; targets as in C03. Non-trivial: jd accepted a varied patch or a target c != a "
+                "(the acceptance rate is in the class histogram); distinct by (patch, c).",
+        "assumptions": ["'-' append variation only on hunks without context tests (tests at fixed indices are not adjacent to the end of the array)"],
+        "legs": [
+            rapid("random", "TestC10Random", {"checks": 25000, "shards": 4}, {"checks": 250000, "shards": 16, "timeout": 6000}),
+        ],
+    },
     "C06": {
         "technique": "exhaustive enumeration of small array pairs + rapid random generation, oracle = independent LCS optimum and reference hunk interpreter",
         "level_text": "Every ordered pair of arrays over a small alphabet up to a length bound is enumerated (complete for that universe) and "
